@@ -134,7 +134,7 @@ func countStructs(maxAlts int) int {
 	return n
 }
 
-var allAz = []uint8{azAbsent, azAccept, azDeny, azDeny418, azDenyP1}
+var allAz = []uint8{azAbsent, azAccept, azDeny, azDeny418, azDenyP1, azDenyNil}
 var fine = []uint8{restFine}
 
 func plan(thorough bool) []envPlan {
@@ -159,7 +159,7 @@ func plan(thorough bool) []envPlan {
 			case thorough:
 				add(key, s3, job{level: lvlAuthorize, maxAlts: 3, azs: allAz})
 			case all:
-				add(key, s3, job{level: lvlAuthorize, maxAlts: 3, azs: []uint8{azAbsent, azDenyP1}})
+				add(key, s3, job{level: lvlAuthorize, maxAlts: 3, azs: []uint8{azAbsent, azDenyP1, azDenyNil}})
 				add(key, s3, job{level: lvlAuthorize, maxAlts: 2, azs: []uint8{azAccept, azDeny, azDeny418}})
 			default:
 				add(key, s3, job{level: lvlAuthorize, maxAlts: 2, azs: allAz})
@@ -170,9 +170,9 @@ func plan(thorough bool) []envPlan {
 				} else {
 					add(key, s3, job{level: lvlHandler, maxAlts: 2, azs: allAz, rests: fine})
 				}
-				add(key, s3, job{level: lvlHandler, maxAlts: 2, azs: []uint8{azAbsent, azAccept, azDeny}, rests: []uint8{restCType, restParam, restAccept}})
+				add(key, s3, job{level: lvlHandler, maxAlts: 2, azs: []uint8{azAbsent, azAccept, azDeny, azDenyNil}, rests: []uint8{restCType, restParam, restAccept}})
 			} else {
-				add(key, s3, job{level: lvlHandler, maxAlts: 2, azs: []uint8{azAbsent, azDenyP1}, rests: fine})
+				add(key, s3, job{level: lvlHandler, maxAlts: 2, azs: []uint8{azAbsent, azDenyP1, azDenyNil}, rests: fine})
 			}
 		}
 	}
@@ -183,18 +183,18 @@ func plan(thorough bool) []envPlan {
 			if thorough {
 				add(key, s2, job{level: lvlAuthorize, maxAlts: 2, azs: allAz})
 			} else {
-				add(key, s2, job{level: lvlAuthorize, maxAlts: 2, azs: []uint8{azAbsent, azDeny, azDenyP1}})
+				add(key, s2, job{level: lvlAuthorize, maxAlts: 2, azs: []uint8{azAbsent, azDeny, azDenyP1, azDenyNil}})
 			}
 			if thorough || rc.reg == 7 {
-				add(key, s2, job{level: lvlHandler, maxAlts: 2, azs: []uint8{azAbsent, azDenyP1}, rests: fine})
+				add(key, s2, job{level: lvlHandler, maxAlts: 2, azs: []uint8{azAbsent, azDenyP1, azDenyNil}, rests: fine})
 			}
 		}
 	}
 	// H6: operation-level structure overrides a global anonymous requirement
 	for _, az := range []bool{false, true} {
 		key := envKey{decl: declOpOverAnon, mode: modeRaw, reg: 7, az: az}
-		add(key, s2, job{level: lvlAuthorize, maxAlts: 2, azs: []uint8{azAbsent, azDenyP1}})
-		add(key, s2, job{level: lvlHandler, maxAlts: 2, azs: []uint8{azAbsent, azDenyP1}, rests: fine})
+		add(key, s2, job{level: lvlAuthorize, maxAlts: 2, azs: []uint8{azAbsent, azDenyP1, azDenyNil}})
+		add(key, s2, job{level: lvlHandler, maxAlts: 2, azs: []uint8{azAbsent, azDenyP1, azDenyNil}, rests: fine})
 	}
 	// A3/H5: declared globally and inherited; and overridden by an empty list (recorded only)
 	gl := s2
@@ -209,8 +209,8 @@ func plan(thorough bool) []envPlan {
 						continue
 					}
 					key := envKey{decl: decl, mode: modeRaw, reg: rc.reg, az: az}
-					add(key, []structure{st}, job{level: lvlAuthorize, maxAlts: 2, azs: []uint8{azAbsent, azAccept, azDenyP1}})
-					add(key, []structure{st}, job{level: lvlHandler, maxAlts: 2, azs: []uint8{azAbsent, azAccept, azDenyP1}, rests: fine})
+					add(key, []structure{st}, job{level: lvlAuthorize, maxAlts: 2, azs: []uint8{azAbsent, azAccept, azDenyP1, azDenyNil}})
+					add(key, []structure{st}, job{level: lvlHandler, maxAlts: 2, azs: []uint8{azAbsent, azAccept, azDenyP1, azDenyNil}, rests: fine})
 				}
 			}
 		}
